@@ -16,7 +16,7 @@ pub fn generate(prop: &str, r: &mut Rng, id: usize, thorough: bool) -> Group {
         "C01" => gen_c01(r, id, thorough),
         "C02" => gen_c02(r, id, thorough),
         "C03" => gen_c03(r, id),
-        "C04" => if r.chance(8) { gen_c04_arith(r, id) } else { crate::oracle_b::gen_c04(r, id) },
+        "C04" => if r.chance(8) { gen_c04_arith(r, id) } else if r.chance(7) { gen_c04_order_long(r, id) } else { crate::oracle_b::gen_c04(r, id) },
         "C05" => gen_c05(r, id, thorough),
         "C06" => gen_c06(r, id),
         "C07" => gen_c07(r, id),
@@ -179,6 +179,44 @@ pub fn gen_c04_arith(r: &mut Rng, id: usize) -> Group {
     g
 }
 
+/// C04: "collection functions preserve element and member order" on collections LONGER than the sizes at which
+/// library routines switch algorithm (insertion sort below ~20 elements, small-vector/inline storage, hash-map
+/// growth): 21..80 elements with keys from a three-value universe, through every order-sensitive function;
+/// the model evaluates the same expressions (correspondence) and the reference evaluator the ones it covers
+pub fn gen_c04_order_long(r: &mut Rng, id: usize) -> Group {
+    let n = r.range(21, 80);
+    let keys = ["1", "2", "\"a\"", "null", "2.0", "true"];
+    let few: Vec<&str> = (0..3).map(|_| *r.pick(&keys)).collect();
+    let mut l = String::from("[");
+    let mut o = String::from("{");
+    for i in 0..n {
+        let k = r.pick(&few);
+        if i > 0 { l.push(','); o.push(','); }
+        l.push_str(&format!("{{\"k\":{k},\"i\":{i}}}"));
+        o.push_str(&format!("\"m{i}\":{{\"k\":{k},\"i\":{i}}}"));
+    }
+    l.push(']');
+    o.push('}');
+    let rec = format!("{{\"l\":{l},\"o\":{o},\"n\":{}}}", n / 2);
+    let pool = ["(sort_by .l .k)", "(order_by .l .k)", "(group_by .l (stringify .k))", "(map .l .i)", "(filter .l (= .k ^.l#0.k))", "(flat_map .l (push [] .i .k))",
+                "(reverese .l)", "(sort (map .l .k))", "(sort_unique (map .l .k))", "(sort_by_values_by .o .k)", "(sort_by_keys .o)", "(keys .o)", "(values .o)",
+                "(entries .o)", "(filter_values .o (= .k ^.l#0.k))", "(map_values .o .i)", "(filter_keys .o (!= . \"m3\"))", "(take .l .n)", "(take_last .l .n)",
+                "(sub .l 3 .n)", "(first .l)", "(last .l)", "(pop .l)", "(pop_first .l)", "(indexed .l)", "(zip (map .l .i) (map .l .k))", "(take .o .n)",
+                "(take_last .o .n)", "(sub .o 3 .n)", "(join (map .l (stringify .i)) \",\")", "(fold .l [] (push .so_far .value.i))", "(any (map .l (= .i 20)))", "(all (map .l (number? .i)))",
+                "(map (sort_by .l .k) .i)", "(sum (map .l .i))", "(size .l)", "(size .o)"];
+    let mut c = case(format!("C04-{id}"));
+    let m = r.range(3, 6);
+    for j in 0..m {
+        c.spec.selects.push(format!("{}=c{j}", r.pick(&pool)));
+    }
+    c.spec.utf8 = true;
+    c.sources.push(stdin_src(rec.into_bytes()));
+    let mut g = Group::new(vec![c]);
+    g.nontrivial = true;
+    g.labels.push("kind:order-long".into());
+    g
+}
+
 /// C05 grid: every ordered PAIR of edge integers through every two-argument arithmetic / comparison /
 /// collection function, operands as literals and as input data — enumerated, not sampled (the first
 /// `c05_grid_size()` group ids of every run)
@@ -304,6 +342,42 @@ pub fn gen_c05(r: &mut Rng, id: usize, thorough: bool) -> Group {
     let fixed = c05_grid_size() + c05_regex_grid_size();
     if thorough && id < fixed + c05_exhaustive_size() {
         return gen_c05_exhaustive(id - fixed);
+    }
+    if r.chance(6) {
+        // more than 20 numbers around the edges of u64 / i64 / 2^53, where integer and double comparison meet:
+        // std's sort panics on a comparison that is not a total order, only on slices longer than 20
+        let edge = ["18446744073709551615", "18446744073709551614", "18446744073709551616", "18446744073709550592", "18446744073709551000", "1.8446744073709552e19",
+                    "9223372036854775807", "9223372036854775808", "9223372036854775809", "-9223372036854775808", "-9223372036854775807", "-9223372036854775809",
+                    "-9223372036854775810", "-9.223372036854776e18", "9007199254740992", "9007199254740993", "9007199254740992.0", "9007199254740994", "0", "-0", "0.0",
+                    "-0.0", "1", "1.0", "1e0", "0.1", "1e308", "-1e308", "5e-324"];
+        let n = r.range(21, 70);
+        let few: Vec<&str> = (0..r.range(3, 8)).map(|_| *r.pick(&edge)).collect();
+        let items: Vec<&str> = (0..n).map(|_| *r.pick(&few)).collect();
+        let mut c = case(format!("C05-{id}"));
+        match r.below(3) {
+            0 => {
+                // (not sort_unique: it sorts unstably, and integers beyond 2^53 that collapse to one double are ties that are not `==`:
+                //  their relative order is unspecified there — outside C07's domain |n| < 2^53)
+                for (j, e) in ["(sort .)", "(sort_by . .)", "(sort_by_values (map_values (fold . {} (put .so_far (stringify .index) .value)) .))", "(null? (sort_unique .))"].iter().enumerate() {
+                    c.spec.selects.push(format!("{e}=s{j}"));
+                }
+                c.sources.push(stdin_src(format!("[{}]", items.join(",")).into_bytes()));
+            }
+            1 => {
+                c.spec.sorts.push(if r.chance(50) { ".".into() } else { ". DESC".into() });
+                if r.chance(50) { c.spec.unique = true; }
+                c.sources.push(stdin_src(items.join("\n").into_bytes()));
+            }
+            _ => {
+                c.spec.sorts.push(".k".into());
+                c.spec.sorts.push(".j DESC".into());
+                let rows: Vec<String> = items.iter().enumerate().map(|(i, v)| format!("{{\"k\":{v},\"j\":{},\"i\":{i}}}", items[(i * 7 + 3) % items.len()])).collect();
+                c.sources.push(stdin_src(rows.join("\n").into_bytes()));
+            }
+        }
+        let mut g = Group::new(vec![c]);
+        g.labels.push("kind:sort-edge-long".into());
+        return g;
     }
     if r.chance(50) {
         return crate::oracle_b::gen_c05_extra(r, id);
@@ -1701,7 +1775,7 @@ pub fn oracle(prop: &str, g: &Group, obs: &[Obs]) -> Option<String> {
                 Ok(r) => r,
                 Err(e) => return Some(e),
             };
-            if rows != g.values {
+            if g.tag != "computed" && rows != g.values {
                 return Some("rows read back differ from the values output".into());
             }
             let text = String::from_utf8_lossy(&o.out).into_owned();
@@ -2049,6 +2123,62 @@ pub fn oracle(prop: &str, g: &Group, obs: &[Obs]) -> Option<String> {
             None
         }
         "C03" | "C06" | "C07" => crate::oracle_a::oracle(prop, g, obs),
+        "C04" if g.labels.iter().any(|l| l == "kind:order-long") => {
+            // element order: whatever the function, elements that carry an arrival index `i` and compare equal on `k`
+            // must keep their arrival order (sort_by / order_by: stable; filter / map / group_by / take / sub: order kept)
+            let (c, o) = (&g.cases[0], &obs[0]);
+            if o.res != "ok" {
+                return Some(format!("{}: run gave {} {}", c.id, o.res, o.panic_msg));
+            }
+            let rows = parse_rows(&o.out, "\n").ok()?;
+            let row = rows.first()?;
+            fn idx_of(v: &V) -> Option<(String, i128)> {
+                match (get_key(v, "k"), get_key(v, "i")) {
+                    (Some(k), Some(V::Int(i))) => Some((value::render(k), *i)),
+                    _ => None,
+                }
+            }
+            fn ordered(list: &[V], by_key: bool) -> Option<String> {
+                let mut last: std::collections::HashMap<String, i128> = Default::default();
+                for v in list {
+                    if let Some((k, i)) = idx_of(v) {
+                        let slot = if by_key { k } else { String::new() };
+                        if let Some(p) = last.get(&slot) {
+                            if *p >= i {
+                                return Some(format!("element i={i} comes after element i={p}"));
+                            }
+                        }
+                        last.insert(slot, i);
+                    }
+                }
+                None
+            }
+            for (j, sel) in c.spec.selects.iter().enumerate() {
+                let Some(val) = get_key(row, &format!("c{j}")) else { continue };
+                let e = sel.rsplit_once('=').map(|x| x.0).unwrap_or(sel);
+                let stable_by_key = e.starts_with("(sort_by .l") || e.starts_with("(order_by .l");
+                let keeps_order = e.starts_with("(filter .l") || e.starts_with("(take .l") || e.starts_with("(take_last .l") || e.starts_with("(sub .l")
+                    || e.starts_with("(pop .l") || e.starts_with("(pop_first .l");
+                match val {
+                    V::Arr(items) if stable_by_key || keeps_order => {
+                        if let Some(m) = ordered(items, stable_by_key) {
+                            return Some(format!("{}: `{e}` does not keep arrival order among {}: {m}", c.id, if stable_by_key { "equal keys" } else { "the elements" }));
+                        }
+                    }
+                    V::Obj(groups) if e.starts_with("(group_by .l") => {
+                        for (name, grp) in groups {
+                            if let V::Arr(items) = grp {
+                                if let Some(m) = ordered(items, false) {
+                                    return Some(format!("{}: group {name} of `{e}` is not in arrival order: {m}", c.id));
+                                }
+                            }
+                        }
+                    }
+                    _ => {}
+                }
+            }
+            crate::oracle_b::oracle(prop, g, obs)
+        }
         "C04" if g.tag.starts_with("arith-illtyped") => {
             // "If all the arguments are number …": one argument that is not a number (or absent) ⇒ nothing
             let o = &obs[0];
